@@ -454,3 +454,8 @@ func CursorCalls(t *rapid.T, mb *model.Bucket, cfg Cfg, ps, n int) []drv.CurCall
 	}
 	return calls
 }
+
+// BucketOp draws one bucket-level op for transaction txid whose model view is m.
+func BucketOp(t *rapid.T, e *drv.Env, cfg Cfg, txid int, m *model.Bucket, readOnly bool) drv.Op {
+	return bucketOp(t, e, cfg, txid, m, readOnly)
+}
